@@ -93,17 +93,6 @@ func (b *payPerInterval) OnUpdate(node store.Node, peers []store.Node) (store.Ba
 		total.Add(total, credit)
 	}
 
-	// If this comparison is in the wrong place, it could make the pool
-	// insolvent. On the other hand, if we compare too early, then the client
-	// could get into a loop where it disconnects due to low balance, connects
-	// successfully, repeat.
-	if b.MinBalance != nil && b.MinBalance.Cmp(total) > 0 {
-		return store.Balance{}, LowBalanceError{
-			CurrentBalance: total,
-			MinBalance:     b.MinBalance,
-		}
-	}
-
 	if err := b.Store.AddNodeBalance(node.ID, new(big.Int).Neg(total)); err != nil {
 		return store.Balance{}, err
 	}
@@ -112,5 +101,19 @@ func (b *payPerInterval) OnUpdate(node store.Node, peers []store.Node) (store.Ba
 		return balance, err
 	}
 
-	return b.Store.GetNodeBalance(node.ID)
+	// The minimum is compared against the spendable balance after this
+	// update's charge: checking before billing would let a client run below the
+	// minimum for free, and comparing against anything but the balance (such
+	// as the size of the charge) would cut off clients that can pay.
+	if b.MinBalance != nil {
+		spendable := new(big.Int).Add(&balance.Credit, &balance.Deposit)
+		if b.MinBalance.Cmp(spendable) > 0 {
+			return store.Balance{}, LowBalanceError{
+				CurrentBalance: spendable,
+				MinBalance:     b.MinBalance,
+			}
+		}
+	}
+
+	return balance, nil
 }
